@@ -552,15 +552,6 @@ func nontrivial(hist []Step) bool {
 
 func run(r *core.Run) {
 	debug.SetGCPercent(400)
-	bounds := quickBounds()
-	histLen, prodLen := 4, 3
-	if r.Thorough() {
-		bounds = thoroughBounds()
-		histLen, prodLen = 5, 4
-	}
-	if s := os.Getenv("C09_HISTLEN"); s != "" {
-		fmt.Sscan(s, &histLen)
-	}
 	if pf := os.Getenv("C09_PROF"); pf != "" {
 		if f, err := os.Create(pf); err == nil {
 			pprof.StartCPUProfile(f)
@@ -572,67 +563,85 @@ func run(r *core.Run) {
 	for i := range workers {
 		workers[i] = &worker{r: r}
 	}
-	r.Assume("the reference model ref/genmodel implements ECMA-262 for the mini-language (cross-checked against V8 during development, see NOTES.md)")
+	r.Assume("the reference model ref/genmodel implements ECMA-262 for the mini-language (cross-checked against V8 on all quick-tier bodies during development, see NOTES.md)")
 	r.Assume("error objects are compared by class (TypeError, ReferenceError, …), not by message")
+	r.Set("contexts", ctxNames)
 
-	complete := true
-
-	// part 0: regression corpus (known findings first, then the fixed corpus of rich bodies)
-	if !runRegress(r, workers[0]) {
-		complete = false
-	}
-
-	cases := Enumerate(bounds)
-	if only != "" {
-		var f []Case
-		for _, c := range cases {
-			if strings.Contains(c.Name, only) {
-				f = append(f, c)
+	filter := func(gens []CaseGen, skip map[string]bool) []CaseGen {
+		var f []CaseGen
+		for _, g := range gens {
+			if (only == "" || strings.Contains(g.Name, only)) && !skip[g.Name] {
+				f = append(f, g)
 			}
 		}
-		cases = f
+		return f
 	}
-	r.Set("bodies", len(cases))
-	scheds := schedules(r.Thorough())
-
-	// part 1: all histories x context schedules
-	done := r.Parallel(int64(len(cases)), 4, func(wi int, lo, hi int64) {
-		w := workers[wi]
-		for i := lo; i < hi; i++ {
-			w.genCase(cases[i], i, histLen, scheds)
+	complete := true
+	var stages []string
+	stage := func(name string, ok bool) bool {
+		if ok {
+			stages = append(stages, name)
+			r.Set("stages_completed", stages)
+		} else {
+			complete = false
 		}
-	})
-	if done {
-		r.Set("gen_bounds_completed", fmt.Sprintf("all %d bodies x histories <= %d x %d schedules", len(cases), histLen, len(scheds)))
-	} else {
-		complete = false
+		return ok
+	}
+	genStage := func(name string, gens []CaseGen, histLen int, scheds []schedule) bool {
+		return stage(fmt.Sprintf("%s: %d bodies x all histories <= %d x %d driver schedules", name, len(gens), histLen, len(scheds)),
+			r.Parallel(int64(len(gens)), 4, func(wi int, lo, hi int64) {
+				for i := lo; i < hi; i++ {
+					workers[wi].genCase(gens[i].Case(), i, histLen, scheds)
+				}
+			}))
+	}
+	asyncStage := func(name string, gens []CaseGen) bool {
+		return stage(fmt.Sprintf("%s: %d bodies as async functions x all settlement orders of their <= 3 awaited promises x {drain after each, one drain}", name, len(gens)),
+			r.Parallel(int64(len(gens)), 8, func(wi int, lo, hi int64) {
+				for i := lo; i < hi; i++ {
+					workers[wi].asyncCase(gens[i].Case(), i)
+				}
+			}))
+	}
+	productStage := func(corpus []Case, n int) bool {
+		return stage(fmt.Sprintf("product: %d corpus bodies x (3 ops x %d driver contexts)^<=%d", len(corpus), len(ctxNames), n),
+			r.Parallel(int64(len(corpus)), 1, func(wi int, lo, hi int64) {
+				for i := lo; i < hi; i++ {
+					workers[wi].productCase(corpus[i], n)
+				}
+			}))
 	}
 
-	// part 2: async rendering, all settlement orders
-	done = r.Parallel(int64(len(cases)), 8, func(wi int, lo, hi int64) {
-		w := workers[wi]
-		for i := lo; i < hi; i++ {
-			w.asyncCase(cases[i], i)
-		}
-	})
-	if done {
-		r.Set("async_bounds_completed", fmt.Sprintf("all %d bodies x all settlement orders of <= 3 awaited promises", len(cases)))
-	} else {
-		complete = false
-	}
+	// stage 0: regression corpus (the minimal inputs of the listed findings)
+	runRegress(r, workers[0])
 
-	// part 3: full product ops x contexts on the corpus
+	qb := quickBounds()
+	quick := filter(Enumerate(qb), nil)
+	r.Set("bodies_quick_bounds", len(quick))
+	r.Set("quick_bounds", boundsText(qb))
+	scheds := schedules(false)
 	corpus := Corpus()
-	done = r.Parallel(int64(len(corpus)), 1, func(wi int, lo, hi int64) {
-		w := workers[wi]
-		for i := lo; i < hi; i++ {
-			w.productCase(corpus[i], prodLen)
+	histLen := 4
+	if s := os.Getenv("C09_HISTLEN"); s != "" {
+		fmt.Sscan(s, &histLen)
+	}
+	ok := genStage("gen/quick bounds", quick, histLen, scheds) &&
+		asyncStage("async/quick bounds", quick) &&
+		productStage(corpus, 3)
+	if r.Thorough() && ok {
+		tb := thoroughBounds()
+		seen := map[string]bool{}
+		for _, g := range quick {
+			seen[g.Name] = true
 		}
-	})
-	if done {
-		r.Set("product_bounds_completed", fmt.Sprintf("%d corpus bodies x (3 ops x %d contexts)^<=%d", len(corpus), len(ctxNames), prodLen))
-	} else {
-		complete = false
+		deep := filter(Enumerate(tb), seen)
+		r.Set("bodies_thorough_bounds", len(deep)+len(quick))
+		r.Set("thorough_bounds", boundsText(tb))
+		_ = genStage("gen/quick bounds", quick, 5, scheds) &&
+			asyncStage("async/thorough bounds", deep) &&
+			genStage("gen/thorough bounds", deep, 4, schedules(true)[4:8]) &&
+			productStage(corpus, 4) &&
+			genStage("gen/quick bounds", quick, 6, scheds[:2])
 	}
 	var maxInstr uint64
 	for _, w := range workers {
@@ -642,8 +651,6 @@ func run(r *core.Run) {
 		}
 	}
 	r.Set("max_vm_instructions_per_driver_call", maxInstr)
-	r.Set("history_length", histLen)
-	r.Set("contexts", ctxNames)
 	r.Exhaustive(complete)
 }
 
@@ -750,11 +757,57 @@ func failsAs(part string, name string, p *gm.Program, hist []Step, batch, oneRun
 	return class, out
 }
 
-// signatureOf minimises the failing case and builds its signature.
+// Root-cause attribution. A failing case is re-run with one property of the case knocked out at a time; the
+// first knock-out that makes it pass names the trigger:
+//
+//	reentrant-delegate   the instrumented iterators no longer call self.next() from inside their next()
+//	register-locals      the locals a, b, p, q are captured by a closure (heap-allocated instead of registers)
+//	stack-capacity       the VM's auxiliary stacks are pre-grown (no re-allocation during the history)
+//
+// otherwise, if an earlier return() of the history left the generator suspended (inside a finally block),
+// the trigger is "after-return-suspended-in-finally"; if a throw() arrived while the generator was suspended
+// in the finally block of a try statement that has a catch clause, it is "throw-into-finally-of-try-with-catch";
+// otherwise the case is minimised (shrink.go) and the minimal body and history are the trigger. signature = part | trigger | diverging call | class.
 func signatureOf(vc *VCase, class string) (sig string, minProg *gm.Program, minHist []Step) {
 	hist := vc.History
 	if vc.Part == "gen" && vc.At >= 0 && vc.At+1 < len(hist) {
 		hist = hist[:vc.At+1]
+	}
+	if vc.At < 0 {
+		return vc.Part + "|" + class, vc.Prog, hist
+	}
+	passes := func(p *gm.Program, caps int) bool {
+		c, _ := failsAs(vc.Part, vc.Name, p, hist, vc.Batch, vc.OneRun, caps)
+		return c == ""
+	}
+	what := ""
+	if vc.Part == "gen" {
+		what = gm.OpNames[hist[vc.At].Op]
+	} else {
+		what = asyncWhat(hist, vc.At, vc.Batch)
+	}
+	trigger := ""
+	if reent := clearReent(vc.Prog); reent != nil && passes(reent, vc.Caps) {
+		trigger = "reentrant-delegate"
+	}
+	if trigger == "" && !vc.Prog.Cap {
+		q := cloneProg(vc.Prog)
+		q.Cap = true
+		if passes(q, vc.Caps) {
+			trigger = "register-locals"
+		}
+	}
+	if trigger == "" && vc.Caps != 64 && passes(vc.Prog, 64) {
+		trigger = "stack-capacity"
+	}
+	if trigger == "" && vc.Part == "gen" && returnSuspendedBefore(hist, vc.At) {
+		trigger = "after-return-suspended-in-finally"
+	}
+	if trigger == "" && vc.Part == "gen" && thrownIntoFinallyWithCatch(hist, vc.At) {
+		trigger = "throw-into-finally-of-try-with-catch"
+	}
+	if trigger != "" {
+		return vc.Part + "|" + trigger + "|" + what + "|" + class, nil, nil
 	}
 	caps := vc.Caps
 	if c, _ := failsAs(vc.Part, vc.Name, vc.Prog, hist, vc.Batch, vc.OneRun, 0); c == class {
@@ -763,9 +816,6 @@ func signatureOf(vc *VCase, class string) (sig string, minProg *gm.Program, minH
 	fails := func(p *gm.Program, h []Step) bool {
 		c, _ := failsAs(vc.Part, vc.Name, p, h, vc.Batch, vc.OneRun, caps)
 		return c == class
-	}
-	if vc.At < 0 {
-		return vc.Part + "|" + class, vc.Prog, hist
 	}
 	minProg, minHist = shrink(vc.Prog, hist, vc.Part == "async", fails, 600)
 	if vc.Part == "gen" {
@@ -781,10 +831,63 @@ func signatureOf(vc *VCase, class string) (sig string, minProg *gm.Program, minH
 	return
 }
 
+// clearReent returns a copy of p whose instrumented iterators lack the re-entrancy flag (nil if none has it).
+func clearReent(p *gm.Program) *gm.Program {
+	q := cloneProg(p)
+	found := false
+	gm.Walk(q.Body, func(n *gm.N) {
+		if n.K == gm.Iter && n.I&gm.ItReent != 0 {
+			n.I &^= gm.ItReent
+			found = true
+		}
+	})
+	if !found {
+		return nil
+	}
+	return q
+}
+
+// returnSuspendedBefore: an earlier return() of the history did not complete the generator.
+func returnSuspendedBefore(hist []Step, at int) bool {
+	for i := 0; i < at && i < len(hist); i++ {
+		if hist[i].Op == gm.OpReturn && resKind(hist[i].Res) == "yield" {
+			return true
+		}
+	}
+	return false
+}
+
+// thrownIntoFinallyWithCatch: a throw() of the history arrived while the generator was suspended inside the
+// finally block of a try statement that also has a catch clause.
+func thrownIntoFinallyWithCatch(hist []Step, at int) bool {
+	for i := 0; i <= at && i < len(hist); i++ {
+		if hist[i].Op == gm.OpThrow && strings.Contains(hist[i].At, "try.finally(c)") {
+			return true
+		}
+	}
+	return false
+}
+
+func asyncWhat(h []Step, at int, batch bool) string {
+	if at == 0 {
+		return "start"
+	}
+	if batch {
+		return "batch"
+	}
+	if h[at].Op == 1 {
+		return "reject"
+	}
+	return "resolve"
+}
+
 // report confirms the failing case 5 times on fresh engines, minimises it and records it. The minimisation is
 // cached per (body, class): the other histories of the same body failing the same way share the signature.
 func (w *worker) report(class string, vc *VCase) {
 	key := vc.Part + "|" + vc.Name + "|" + class
+	if vc.At >= 0 && vc.Part == "gen" {
+		key += fmt.Sprintf("|%d|%v|%v", vc.History[vc.At].Op, returnSuspendedBefore(vc.History, vc.At), thrownIntoFinallyWithCatch(vc.History, vc.At))
+	}
 	if sig, ok := w.sigs[key]; ok {
 		w.r.Violation(sig, describe(vc), vc)
 		return
@@ -804,8 +907,10 @@ func (w *worker) report(class string, vc *VCase) {
 		w.sigs = map[string]string{}
 	}
 	w.sigs[key] = sig
-	vc.MinSrc = bodyText(mp, vc.Part == "async")
-	vc.MinHistory = mh
+	if mp != nil {
+		vc.MinSrc = bodyText(mp, vc.Part == "async")
+		vc.MinHistory = mh
+	}
 	w.r.Violation(sig, describe(vc), vc)
 }
 
@@ -842,8 +947,10 @@ func replay(r *core.Run, raw json.RawMessage) {
 	class, out := failsAs(vc.Part, vc.Name, vc.Prog, vc.History, vc.Batch, vc.OneRun, vc.Caps)
 	if out != nil {
 		sig, mp, mh := signatureOf(out, class)
-		out.MinSrc = bodyText(mp, vc.Part == "async")
-		out.MinHistory = mh
+		if mp != nil {
+			out.MinSrc = bodyText(mp, vc.Part == "async")
+			out.MinHistory = mh
+		}
 		r.Violation(sig, describe(out), out)
 	}
 }
